@@ -36,9 +36,12 @@ EXPLANATION += (' R-C20-5: the identifier dataset and the value dataset of a var
 EXPLANATION += (" R-C20-7: the index the importer attaches to a variable's values follows that variable's own MYGEOMETRYIDS order (identifier frame on the left of an order-preserving merge); the exporter applies no unit-dependent tolerance (np.allclose/isclose) when it decides about the mesh.")
 EXPLANATION += (' R-C20-8: an exporter attribute that a method sets under a data-dependent condition and another method reads (the dimension of the geometry) is assigned on every path of the setting method (CFG must-pass), so no value of an earlier add_* call survives.')
 EXPLANATION += (' R-C20-9: a list that collects one array per element (groupby group) is not packed into a rectangular numpy array (mixed element types make it ragged).')
+EXPLANATION += (" R-C20-10: a string attribute that the exporter creates from a Python bytes/str value (stored as a variable-length string, returned by h5py as str) is not decoded unconditionally by the importer. R-C20-2 requires the roll-back in every handler of an entity-creating block; R-C20-9 also compares the order classes of a flat array and of the sizes it is split by.")
 ASSUMPTIONS = [
     "h5py semantics: group[name] addresses a child, create_group/create_dataset create it, attrs is a key/value store",
     "string formatting with %s inserts exactly one path component",
+    "h5py returns a variable-length string attribute (created from a Python bytes or str value) as str and a fixed-length one "
+    "(numpy bytes_) as bytes",
 ]
 
 STAR = "*"
@@ -416,6 +419,7 @@ def run(ctx):
     _check_set_codes(ctx, prog, W, R, exp_ci, imp_ci)
     _check_locations(ctx, prog, W, R, exp_ci, imp_ci)
     _check_widths(ctx, prog, W, R)
+    ctx.attempt(lambda c: _check_string_attrs(c, prog, W, imp_ci))
 
     # ---------------------------------------------------------------- R-C20-2 rollback
     _check_rollback(ctx, prog, W, exp_ci)
@@ -1041,6 +1045,82 @@ def _literal_columns(e):
     return None
 
 
+def _bytes_only_reads(fn_node):
+    """`<attrs[K]>.decode(...)` sites (directly or through a single local): [(call, key, guarded?)] - guarded when an enclosing
+    conditional tests isinstance(<receiver>, bytes ...)"""
+    out = []
+    defs = {}
+    for st in ast.walk(fn_node):
+        if isinstance(st, ast.Assign) and len(st.targets) == 1 and isinstance(st.targets[0], ast.Name):
+            defs.setdefault(st.targets[0].id, []).append(st.value)
+    for c in ast.walk(fn_node):
+        if not (isinstance(c, ast.Call) and isinstance(c.func, ast.Attribute) and c.func.attr == "decode"):
+            continue
+        recv = c.func.value
+        src = recv
+        if isinstance(recv, ast.Name) and len(defs.get(recv.id, [])) == 1:
+            src = defs[recv.id][0]
+        key = None
+        for n in ast.walk(src):
+            if isinstance(n, ast.Subscript) and isinstance(n.value, ast.Attribute) and n.value.attr == "attrs":
+                key = const_value(n.slice)
+        if key is None:
+            continue
+        guarded = False
+        n = c
+        while getattr(n, "_parent", None) is not None and n is not fn_node:
+            par = n._parent
+            test = par.test if isinstance(par, (ast.If, ast.IfExp)) else None
+            if test is not None and n is not test:
+                for t in ast.walk(test):
+                    if isinstance(t, ast.Call) and call_name(t) == "isinstance" and len(t.args) == 2 and \
+                            norm_text(t.args[0]) == norm_text(recv) and "bytes" in norm_text(t.args[1]):
+                        in_body = (n is par.body) if isinstance(par, ast.IfExp) else any(n is x for x in par.body)
+                        negated = isinstance(test, ast.UnaryOp) and isinstance(test.op, ast.Not)
+                        guarded = in_body != negated
+            n = par
+        out.append((c, key, guarded))
+    return out
+
+
+def _check_string_attrs(ctx, prog, W, imp_ci):
+    """R-C20-10: h5py returns a string attribute as `bytes` only when it was stored with a fixed length (numpy bytes_); what the
+    exporter creates from a Python bytes / str value is a variable-length string and comes back as `str`.  A bytes-only method
+    (.decode) applied unconditionally to such an attribute raises for every file the exporter wrote."""
+    ctx.rule("R-C20-10", floor=1, what="string attributes the exporter writes as Python bytes/str are not decoded unconditionally by the importer")
+    import ast as _a
+    from ..frontend import set_parents as _sp
+    ex = _sp(_a.parse("def f(g):\n    a = g.attrs['N'].decode('UTF-8')\n    n = g.attrs['N']\n"
+                      "    b = n.decode('UTF-8') if isinstance(n, bytes) else n\n    return a, b\n")).body[0]
+    if [(k, g) for _, k, g in _bytes_only_reads(ex)] != [("N", False), ("N", True)]:
+        raise AnalysisError("R-C20-10 built-in example not matched")
+    n = 0
+    for name, defs in imp_ci.methods.items():
+        fi = defs[-1]
+        for c, key, guarded in _bytes_only_reads(fi.node):
+            n += 1
+            wr = [r for r in W.records if r["kind"] == "write_attr" and r["key"] == key and r.get("value") is not None]
+            if not wr:
+                raise AnalysisError("%s: no writer of the attribute %s found in the exporter" % (fi.key, key))
+            varlen = []
+            for r in wr:
+                v = r["value"]
+                t = norm_text(v)
+                if (isinstance(v, ast.Call) and isinstance(v.func, ast.Attribute) and v.func.attr == "encode") or \
+                        isinstance(const_value(v), (bytes, str)) or (isinstance(v, ast.Call) and call_name(v) in ("str", "bytes")) or \
+                        isinstance(v, ast.JoinedStr):
+                    varlen.append(t)
+            if varlen and not guarded:
+                ctx.violated(fi, c, "%s decodes the attribute %s unconditionally, but the exporter writes it as %s - a variable-length "
+                             "string, which h5py returns as str: reading any file written by the exporter raises AttributeError "
+                             "(sets cannot be listed or used as filters)" % (fi.name, key, varlen[0]), text="decode " + str(key))
+            else:
+                ctx.holds(fi, c, "%s: .decode of attribute %s %s" % (fi.name, key, "only for bytes values (isinstance guard)" if guarded
+                                                                  else "matches a fixed-length writer"))
+    if n == 0:
+        raise AnalysisError("importer: no decoded string attribute found")
+
+
 def _check_widths(ctx, prog, W, R):
     # reader sites: pd.DataFrame(<dataset read>, columns=<expr>)
     imp_ci = prog.cls(IMP + ":VMAPImport")
@@ -1310,6 +1390,21 @@ def _is_range_check(fi):
 
 def variants():
     out = []
+
+    def set_name_body(src):
+        def f_(tree):
+            f = find_func(tree, "VMAPImport._geometry_sets")
+            inner = [n for n in f.body if isinstance(n, ast.FunctionDef)]
+            if not inner:
+                return False
+            inner[0].body = ast.parse(src).body
+            return True
+        return f_
+    out.append(witness("set name decoded unconditionally", IMP_PATH,
+                       set_name_body("return gset.attrs['MYSETNAME'].decode('UTF-8')\n"), "R-C20-10"))
+    out.append(twin("set name decoded in an if statement", IMP_PATH,
+                    set_name_body("label = gset.attrs['MYSETNAME']\nif isinstance(label, bytes):\n"
+                                  "    return label.decode('UTF-8')\nreturn label\n")))
 
     def pack_connectivity(tree):
         f = find_func(tree, "VMAPExport._create_elements_dataset")
